@@ -834,8 +834,8 @@ Example C15_deviation_base_step :
   allowed deps base_valid_fields BP_Input cur cur.
 Proof.
   split; [vm_compute; reflexivity|].
-  split; [vm_compute; auto|].
-  left. vm_compute. auto.
+  split; [vm_compute; intuition reflexivity|].
+  left. vm_compute. intuition reflexivity. (* wherever the name stands in the list *)
 Qed.
 
 Print Assumptions C15_fuel_mono.
